@@ -133,6 +133,9 @@ impl R2ROperator<Triple, Vec<PhysicalOperator>, Vec<(String, String)>> for Simpl
     }
 
     fn add(&mut self, data: Triple) {
+        // A stream item may coincide with a fact derived in the previous
+        // cycle; from now on it is window content, not a derived triple.
+        self.derived_triples.retain(|derived| derived != &data);
         self.item.add_triple(data);
     }
 
